@@ -4992,8 +4992,14 @@ fn check_param_types(
             let param_ty = match Type::from_hint(param_hint, &env.types, type_bindings) {
                 Ok(ty) => ty,
                 Err(e) => {
+                    let mut saved_values = vec![];
+                    saved_values.push(receiver_value.clone());
+                    for value in arg_values.iter().rev() {
+                        saved_values.push(value.clone());
+                    }
+
                     return Err((
-                        RestoreValues(vec![]),
+                        RestoreValues(saved_values),
                         EvalError::Exception(ExceptionInfo {
                             position: arg_positions[i].clone(),
                             message: ErrorMessage(vec![
@@ -6444,8 +6450,22 @@ fn eval_expr(
                     ExpressionState::EvaluatedSubexpressions,
                     Rc::clone(&outer_expr),
                 );
-                eval_match_cases(env, expr_value_is_used, &scrutinee.position, cases)
-                    .map_err(|e| (RestoreValues(vec![]), e))?;
+                // `eval_match_cases` pops the scrutinee. If it fails,
+                // put the scrutinee back and drop the continuation we
+                // just queued, so the step can be resumed or skipped.
+                let scrutinee_value: Vec<Value> = env
+                    .current_frame()
+                    .evalled_values
+                    .last()
+                    .cloned()
+                    .into_iter()
+                    .collect();
+                if let Err(e) =
+                    eval_match_cases(env, expr_value_is_used, &scrutinee.position, cases)
+                {
+                    env.current_frame_mut().exprs_to_eval.pop();
+                    return Err((RestoreValues(scrutinee_value), e));
+                }
             }
             ExpressionState::EvaluatedSubexpressions => {
                 env.current_frame_mut().bindings.pop_block();
@@ -6465,13 +6485,18 @@ fn eval_expr(
                     Rc::clone(&outer_expr),
                 );
 
-                eval_if(
+                if let Err(e) = eval_if(
                     env,
                     expr_value_is_used,
                     &condition.position,
                     then_body,
                     else_body.as_ref(),
-                )?;
+                ) {
+                    // Drop the continuation we just queued, so the
+                    // failed step can be resumed or skipped.
+                    env.current_frame_mut().exprs_to_eval.pop();
+                    return Err(e);
+                }
             }
             ExpressionState::EvaluatedSubexpressions => {
                 env.current_frame_mut().bindings.pop_block();
